@@ -608,12 +608,9 @@ Definition genv := str -> option value.
 Definition eval_binop (op : binop) (lt rt : ety) (a b : value) : option value :=
   match op with
   | BEq | BNe =>
-      let r := match a, b with
-               | VNum x, VNum y => Some (PrimFloat.eqb x y)
-               | VBool x, VBool y => Some (Bool.eqb x y)
-               | VStr x, VStr y => Some (str_eqb x y)
-               | _, _ => None
-               end in
+      (* value.Equals: numbers, booleans, strings; arrays and maps structurally; a
+         dynamic type mismatch is undefined *)
+      let r := val_equals a b in
       match r, op with
       | Some t, BEq => Some (VBool t)
       | Some t, _ => Some (VBool (negb t))
@@ -635,6 +632,13 @@ Definition eval_binop (op : binop) (lt rt : ety) (a b : value) : option value :=
           | BPlus => Some (VStr (x ++ y))
           | BLt => Some (VBool (str_ltb x y)) | BLe => Some (VBool (negb (str_ltb y x)))
           | BGt => Some (VBool (str_ltb y x)) | BGe => Some (VBool (negb (str_ltb x y)))
+          | _ => None
+          end
+      | TArr, TArr, VArr x, VArr y =>               (* concatenation *)
+          match op with BPlus => Some (VArr (x ++ y)) | _ => None end
+      | TArr, TNum, VArr x, VNum y =>               (* repetition; a bad count is an error: undefined *)
+          match op with
+          | BStar => match arr_repeat repeat_guarded y x with POk v => Some v | _ => None end
           | _ => None
           end
       | _, _, _, _ => None
@@ -661,6 +665,12 @@ Fixpoint eval_expr (env : genv) (e : expr) : option value :=
       | _, _ => None
       end
   | EArr l => option_map VArr (eval_list env l)  (* [e1 e2 …] *)
+  | EMap kvs _ => option_map VMap (eval_pairs env kvs)  (* {k1:e1 k2:e2 …}: the pairs in source order *)
+  | ESlice l a b =>                             (* l[a:b] on strings (by code point) and arrays; errors are undefined *)
+      match eval_expr env l, eval_oexpr env a, eval_oexpr env b with
+      | Some x, Some va, Some vb => match slice_value x va vb with POk v => Some v | _ => None end
+      | _, _, _ => None
+      end
   | _ => None
   end
 with eval_list (env : genv) (l : elist) : option (list value) :=
@@ -670,6 +680,19 @@ with eval_list (env : genv) (l : elist) : option (list value) :=
                  | Some v, Some vs => Some (v :: vs)
                  | _, _ => None
                  end
+  end
+with eval_pairs (env : genv) (l : eplist) : option (list (list N * value)) :=
+  match l with
+  | PNil => Some []
+  | PCons k e t => match eval_expr env e, eval_pairs env t with
+                   | Some v, Some m => Some ((utf8_encode k, v) :: m)
+                   | _, _ => None
+                   end
+  end
+with eval_oexpr (env : genv) (o : oexpr) : option value :=   (* a missing slice bound is none *)
+  match o with
+  | ONoneE => Some VNone
+  | OSome e => eval_expr env e
   end.
 
 (* the most stack slots the code of e needs above its starting height *)
@@ -678,13 +701,22 @@ Fixpoint edepth (e : expr) : N :=
   | EGroup e1 | EUn _ e1 => edepth e1
   | EBin _ _ _ l r | EIndex l r => N.max (edepth l) (1 + edepth r)
   | EArr l => N.max 1 (edepth_list l)
+  | EMap kvs _ => N.max 1 (edepth_pairs kvs)
+  | ESlice l a b => N.max (edepth l) (N.max (1 + edepth_o a) (2 + edepth_o b))
   | _ => 1
   end
 with edepth_list (l : elist) : N :=
   match l with
   | ENil => 0
   | ECons e t => N.max (edepth e) (1 + edepth_list t)
-  end.
+  end
+with edepth_pairs (l : eplist) : N :=
+  match l with
+  | PNil => 0
+  | PCons _ e t => N.max (1 + edepth e) (2 + edepth_pairs t)   (* the key, then the value above it *)
+  end
+with edepth_o (o : oexpr) : N :=
+  match o with ONoneE => 1 | OSome e => edepth e end.
 
 (* n loop iterations of Run *)
 Fixpoint vm_steps (n : nat) (p : program) (s : vmstate) : outcome :=
